@@ -34,6 +34,12 @@ class Facts:
             self.by[b['fn']] = b
         self._fn = {}
         self._cg = None
+        self.known = None      # set of normalised production function names at the pinned commit
+        self.inline_new = True
+        self._inst = [0]
+        kp = os.path.join(os.path.dirname(os.path.dirname(os.path.abspath(__file__))), 'specs', 'known_functions.txt')
+        if os.path.exists(kp):
+            self.known = set(l.strip() for l in open(kp) if l.strip() and not l.startswith('#'))
 
     # -- body selection ------------------------------------------------------------------------
     @staticmethod
@@ -85,6 +91,52 @@ class Facts:
         if b['fn'] not in self._fn:
             self._fn[b['fn']] = Fn(self, b)
         return self._fn[b['fn']]
+
+    def is_new_fn(self, callee):
+        """a crate function that did not exist at the pinned commit (e.g. a helper extracted by a
+        refactor): calls to it are analysed through (inlined), so rules anchored on the caller keep
+        seeing the events"""
+        if not self.inline_new or self.known is None:
+            return False
+        b = self.by.get(callee)
+        if b is None or b['kind'] not in ('fn', 'assoc') or self.is_test(callee, b):
+            return False
+        return norm_callee(callee) not in self.known
+
+    def rcg(self):
+        if getattr(self, '_rcg', None) is None:
+            r = collections.defaultdict(set)
+            for a, cs in self.callgraph().items():
+                for c in cs:
+                    r[c].add(a)
+            self._rcg = r
+        return self._rcg
+
+    def owners(self, name, _seen=()):
+        """short names of the pinned-commit functions responsible for code in `name`: the function
+        itself (closures attributed to their parent), or — for a helper that did not exist at the
+        pinned commit — the functions that call it"""
+        base = re.sub(r'(::\{closure#\d+\})+$', '', name)
+        if self.is_new_fn(base):
+            res = set()
+            for c in self.rcg().get(base, ()):
+                if c != name and c not in _seen:
+                    res |= self.owners(c, _seen + (name,))
+            if res:
+                return res
+        return {base.split('::')[-1]}
+
+    def owner_bodies(self, name, _seen=()):
+        """full names of the pinned-commit functions through which `name` is analysed"""
+        base = re.sub(r'(::\{closure#\d+\})+$', '', name)
+        if self.is_new_fn(base):
+            res = set()
+            for c in self.rcg().get(base, ()):
+                if c != name and c not in _seen:
+                    res |= self.owner_bodies(c, _seen + (name,))
+            if res:
+                return res
+        return {name}
 
     def closures_of(self, parent_fn):
         return [b for b in self.bodies if b['kind'] == 'closure' and b['parent'] == parent_fn]
@@ -421,6 +473,48 @@ def _cm(callee, pat):
 TRACK_DROP_TYPES = ('CancelOnPanic',)
 
 
+def subst_term(t, amap, inst):
+    if not isinstance(t, tuple) or not t:
+        return t
+    if t[0] == 'arg' and len(t) == 2 and isinstance(t[1], int):
+        return amap.get(t[1], ('unk', f'arg{t[1]}'))
+    if t[0] == 'call' and len(t) == 4:
+        return ('call', t[1], tuple(subst_term(a, amap, inst) for a in t[2]), (inst,) + tuple(t[3]))
+    return tuple(subst_term(x, amap, inst) if isinstance(x, tuple) else x for x in t)
+
+
+def subst_guard(g, amap, inst):
+    return (g[0], subst_term(g[1], amap, inst) if g[1] is not None else None, (inst,) + tuple(g[2]))
+
+
+def instantiate_path(cp, args, inst, caller_held, callee):
+    """events of callee path `cp` with its parameters replaced by the caller's argument terms"""
+    amap = {i + 1: a for i, a in enumerate(args)}
+    out = []
+    retv = ('unk', 'ret')
+    ret_held = caller_held
+    for e in cp.events:
+        d = {}
+        for k, v in e.d.items():
+            if k in ('term', 'value', 'place', 'result', 'on'):
+                d[k] = subst_term(v, amap, inst) if isinstance(v, tuple) else v
+            elif k == 'args':
+                d[k] = tuple(subst_term(a, amap, inst) for a in v)
+            elif k == 'guard':
+                d[k] = subst_guard(v, amap, inst)
+            else:
+                d[k] = v
+        held = tuple(caller_held) + tuple(subst_guard(g, amap, inst) for g in e.held)
+        if e.kind == 'ret':
+            retv = d['value']
+            ret_held = held
+            continue
+        ne = Ev(e.kind, e.bb, e.line, held, e.mac, **d)
+        ne.d['inlined_from'] = callee
+        out.append(ne)
+    return out, retv, ret_held
+
+
 class PathBudget(Exception):
     pass
 
@@ -588,7 +682,7 @@ class Fn:
                     ','.join(rv.get('fields', [])))
         return ('unk', k + ':' + str(rv.get('v', ''))[:40])
 
-    def paths(self, start=0, stop=None, budget=200000, env0=None, keep_noise=False, stop_at_calls=None, max_visits=2):
+    def paths(self, start=0, stop=None, budget=200000, env0=None, keep_noise=False, stop_at_calls=None, max_visits=2, _depth=0):
         """enumerate paths from block `start`; `stop(bb)` ends a path (before executing bb) with
         end='stop'."""
         out = []
@@ -741,6 +835,39 @@ class Fn:
                     if t['t'] < 0:
                         out.append(Path(events, 'diverge', trail))
                         return
+                    if _depth < 2 and ev is not None and facts.is_new_fn(callee):
+                        cf = facts.fn(facts.by[callee])
+                        try:
+                            cps = cf.paths(budget=3000, max_visits=max_visits, _depth=_depth + 1)
+                        except PathBudget:
+                            cps = None
+                        if cps is not None and len(cps) <= 64:
+                            held_here = held_of(guards)
+                            for cp in cps:
+                                facts._inst[0] += 1
+                                inst = facts._inst[0]
+                                evs2, retv, ret_held = instantiate_path(cp, args, inst, held_here, callee)
+                                if cp.end != 'return':
+                                    if cp.end in ('diverge', 'cut'):
+                                        out.append(Path(events + evs2, cp.end, trail))
+                                    continue
+                                env2 = dict(env)
+                                heap2 = dict(heap)
+                                for e2 in evs2:
+                                    if e2.kind == 'assign' and e2.d['place'][0] != 'var':
+                                        heap2[e2.d['place']] = e2.d['value']
+                                g2 = dict(guards)
+                                if not dest['proj']:
+                                    env2[dest['local']] = retv
+                                    new_g = [g for g in ret_held if g not in held_here]
+                                    if new_g and guard_kind(self.lty.get(dest['local'], '')):
+                                        g2[dest['local']] = new_g[0]
+                                    elif dest['local'] in g2 and not guard_kind(self.lty.get(dest['local'], '')):
+                                        pass
+                                walk(t['t'], env2, memo, used, events + evs2, g2, trail, heap2)
+                                if count[0] > budget:
+                                    raise PathBudget(self.name)
+                            return
                     # NOTE: decisions are memoised by term.  A callee that mutates memory which the
                     # path re-reads and re-branches on would need the memo entry dropped here; the
                     # crate has no such re-read (checked when the rules were written), and dropping
